@@ -31,7 +31,8 @@ BADFIRST = 'eE.;' + string.digits
 # words the LP grammar reserves (case-insensitive); a label equal to one of them cannot be read back
 RESERVED = {'minimize', 'min', 'minimum', 'maximize', 'max', 'maximum', 'st', 's.t.', 'bounds', 'bound', 'binary', 'binaries', 'bin',
             'general', 'generals', 'gen', 'integer', 'integers', 'semi', 'semis', 'sos', 'end', 'free', 'inf', 'infinity'}
-# single words that are only special in pairs ("subject to", "such that"): kept out of the valid stream
+# single words that are only special in pairs ("subject to", "such that"): kept out of the random stream, exercised by the
+# directed two-word-keyword section of `run`
 PAIRWORDS = {'subject', 'to', 'such', 'that'}
 UNREADABLE = 'label is not an identifier for the LP reader (keyword, inf/nan prefix, leading semicolon)'
 PRE = 'import dimod\nfrom dimod import lp\nfrom fractions import Fraction as F\n'
@@ -243,6 +244,48 @@ def parse_model_cqm(ans):
     return vs, obj, cons
 
 
+def mutate_text(r, text):
+    """a near miss of a writer-produced text that stays inside the writer's grammar: other line breaks, another number,
+    another sense.  Returns (text, kind) or (None, kind)."""
+    import re
+    cut = text.find('\nBounds')
+    head, tail = text[:cut], text[cut:]
+    kind = r.choice(['rewrap', 'rewrap', 'number', 'rhs', 'sense', 'rewrap names'])
+    if kind == 'rewrap':
+        pos = [i for i in range(1, len(head) - 1) if head[i] == ' ' and head[i - 1] not in ' \n' and head[i + 1] not in ' \n']
+        if not pos:
+            return None, kind
+        for i in sorted(r.sample(pos, min(len(pos), r.randint(1, 6))), reverse=True):
+            head = head[:i] + '\n ' + head[i + 1:]
+        return head + tail, kind
+    if kind == 'rewrap names':
+        pos = [i for i in range(1, len(tail) - 1) if tail[i] == ' ' and tail[i - 1] not in ' \n' and tail[i + 1] not in ' \n' and tail.find('\nBinary') < i]
+        if not pos:
+            return None, kind
+        for i in sorted(r.sample(pos, min(len(pos), r.randint(1, 4))), reverse=True):
+            tail = tail[:i] + '\n ' + tail[i + 1:]
+        return head + tail, kind
+    if kind == 'number':
+        ms = list(re.finditer(r'(?<=[+-] )\d+(\.\d+)?(?= )', head))
+        if not ms:
+            return None, kind
+        m = r.choice(ms)
+        return head[:m.start()] + r.choice(['3', '0.25', '17.5', '1000000', '0.125', '6.0']) + head[m.end():] + tail, kind
+    if kind == 'rhs':
+        ms = list(re.finditer(r'(?<== )-?\d+(\.\d+)?(?=\n|$)', head))
+        if not ms:
+            return None, kind
+        m = r.choice(ms)
+        return head[:m.start()] + r.choice(['3', '-3.5', '0', '0.0', '12.25', '-100']) + head[m.end():] + tail, kind
+    st = head.find('Subject To')
+    ms = list(re.finditer(r' (<=|>=|=) ', head[st:]))
+    if not ms:
+        return None, kind
+    m = r.choice(ms)
+    new = r.choice([x for x in ('<=', '>=', '=') if x != m.group(1)])
+    return head[:st + m.start()] + ' ' + new + ' ' + head[st + m.end():] + tail, kind
+
+
 def run(ctx):
     r = ctx.rng
     ctx.rule = ('random LP-expressible CQMs (1-8 variables, labels over the full LP alphabet incl. 255-character labels, default and '
@@ -390,6 +433,60 @@ def run(ctx):
         lines.append('load ' + text.encode().hex())
         expect.append(('REAL', (bvars, bobj, bcons)))
         meta.append(('lp.loads', text))
+        # (ii') the same on a near miss of the text: the real parser and the specification reader must read the same model
+        if r.random() < .35:
+            mt, mkind = mutate_text(r, text)
+            if mt is not None and mt != text:
+                try:
+                    mb = canon_real(lp.loads(mt))
+                except Exception:  # noqa
+                    mb = None
+                ctx.tick('near miss: ' + mkind + ('' if mb is not None else ' (refused by the real parser)'))
+                ctx.case(('near miss', mt), nontrivial=True)
+                if mb is not None:
+                    lines.append('load ' + mt.encode().hex()); expect.append(('REAL', mb)); meta.append((f'lp.loads (near miss: {mkind})', mt))
+    # two-word keywords ("subject to", "such that", any case): the reader joins two names that follow each other, which
+    # happens in the Binary / General sections.  Every layout must be refused or read back as written.
+    for w1, w2 in (('subject', 'to'), ('such', 'that')):
+        for f1, f2 in ((w1, w2), (w1.capitalize(), w2.capitalize()), (w1.upper(), w2), (w1, w2.upper())):
+            for kind in 'BI':
+                for layout in ('adjacent', 'other kind between', 'reversed', 'first alone', 'second alone', 'after another'):
+                    other = 'R' if r.random() < .5 else ('I' if kind == 'B' else 'B')
+                    names = {'adjacent': [(f1, kind), (f2, kind)], 'other kind between': [(f1, kind), ('mid', other), (f2, kind)],
+                             'reversed': [(f2, kind), (f1, kind)], 'first alone': [(f1, kind), ('zz', kind)],
+                             'second alone': [('zz', kind), (f2, kind)], 'after another': [('zz', kind), (f1, kind), (f2, kind)]}[layout]
+                    gd = Gen.__new__(Gen)
+                    gd.vars = [(nm, k, F(0), F(1)) if k == 'B' else (nm, k, F(-2), F(5, 2) if k == 'R' else F(5)) for nm, k in names]
+                    gd.obj = ({nm: dy(r, nz=True) for nm, _ in names}, {}, dy(r))
+                    gd.cons = [('c0', ({nm: F(1) for nm, _ in names}, {}, F(0)), 'le', F(3))]
+                    cqm = gd.build()
+                    dsrc = gd.src()
+                    ctx.case(('pairword', f1, f2, kind, layout), nontrivial=True); ctx.tick('two-word keyword labels: ' + layout)
+                    try:
+                        text = lp.dumps(cqm)
+                    except ValueError:
+                        ctx.tick('two-word keyword labels: refused')
+                        continue
+                    lines.append('dump ' + cqm_wire(cqm)); expect.append('ok ' + text.encode().hex()); meta.append(('lp.dump', dsrc))
+                    try:
+                        bvars, bobj, bcons = canon_real(lp.loads(text))
+                        okp = (bvars == [(nm, k, lb, ub) for nm, k, lb, ub in gd.vars] and
+                               bobj == merged(list(gd.obj[0].items()), [], gd.obj[2]) and
+                               [(c[0], c[1], c[2], c[3]) for c in bcons] == [('c0', 'le', F(3), merged([(nm, F(1)) for nm, _ in names], [], F(0)))])
+                        msg = f'variables read back as {bvars}'
+                    except Exception as e:  # noqa
+                        okp, msg = False, f'{type(e).__name__}: {e}'
+                    if not okp:
+                        ctx.fail('property', 'lp.loads(lp.dumps(cqm))', 'labels forming a two-word LP keyword (subject to / such that)',
+                                 f'{[nm for nm, _ in names]} ({kind}, {layout}): written, but {msg}',
+                                 repro=PRE + dsrc + 'try:\n    text = lp.dumps(cqm)\nexcept ValueError:\n    text = None      # refused: fine\n'
+                                 'if text is not None:\n    back = lp.loads(text)\n'
+                                 '    assert [(v, back.vartype(v), back.lower_bound(v), back.upper_bound(v)) for v in back.variables] == '
+                                 '[(v, cqm.vartype(v), cqm.lower_bound(v), cqm.upper_bound(v)) for v in cqm.variables]\n'
+                                 '    assert coeffs(back.objective) == coeffs(cqm.objective) and list(back.constraints) == list(cqm.constraints)\n',
+                                 detail=dict(text=text[:400]))
+                    elif 'Subject' not in (f1, f2):
+                        lines.append('load ' + text.encode().hex()); expect.append(('REAL', (bvars, bobj, bcons))); meta.append(('lp.loads', text))
     # reserved words: refused, or written and read back unchanged
     for w in sorted(RESERVED) + [';x', ';', 'infx', 'nanx', 'in', 'na', 'stx', 'free1']:
         for form in sorted({w, w.upper(), w.capitalize()}):
